@@ -144,7 +144,8 @@ func cvSx(v cvar) sx.V {
 	return sx.L{sx.S(v.pname), sx.N(uint64(v.ver)), sx.Bool(v.reserved), sx.Bool(v.clean), sx.Bool(v.willFlag),
 		sx.N(uint64(v.willQos)), sx.Bool(v.willRetain), sx.S(v.willTopic), sx.B(v.willPayload), sx.N(uint64(v.willDelay)),
 		sx.Bool(v.userFlag), sx.B(v.user), sx.Bool(v.passFlag), sx.B(v.pass), sx.N(uint64(v.keepalive)), sx.S(v.id),
-		sx.Bool(v.seiFlag), sx.N(uint64(v.sei)), sx.Bool(v.trunc && (v.userFlag || v.passFlag))}
+		sx.Bool(v.seiFlag), sx.N(uint64(v.sei)), sx.Bool(v.trunc && (v.userFlag || v.passFlag)),
+		sx.Bool(!v.willFlag || mqtt.IsValidFilter(v.willTopic, true))}
 }
 
 type lifeCaps struct {
@@ -676,7 +677,7 @@ func lifeScenarios(focus string, seed int64, tier string, out *sx.Out) {
 		// 6 DISCONNECT with another reason (0x80), 7 DISCONNECT raising a zero expiry (protocol error)
 		for _, w := range wcs {
 			for end := 0; end <= 7; end++ {
-				for _, after := range []int{0, 1, 2, 3} { // 0 ticks only, 1 resume before due, 2 clean reconnect before due, 3 resume after due
+				for _, after := range []int{0, 1, 2, 3, 4} { // 0 ticks only, 1 resume before due, 2 clean reconnect before due, 3 resume after due, 4 session expires before the will tick
 					if w.ver < 5 && (end == 1 || end == 6 || end == 7) {
 						continue
 					}
@@ -724,6 +725,9 @@ func lifeScenarios(focus string, seed int64, tier string, out *sx.Out) {
 							v2.seiFlag, v2.sei = true, 20
 							h.opConnect(v2)
 						}
+						if after == 4 {
+							h.opTick("clients", tEnd+int64(w.sei)+1)
+						}
 						h.opTick("will", due)
 						h.opTick("clients", due)
 						h.opTick("will", due+1)
@@ -770,7 +774,7 @@ func lifeRandom(focus string, seed int64, tier string, out *sx.Out) {
 			ids := []string{"a", "b"}
 			o := h.opConnect(stdConnect("obs", 5, true))
 			h.opSubscribe(o, "w/1", 2)
-			h.opSubscribe(o, "w/2", 1)
+			h.opSubscribe(o, "w/2", 2)
 			msg := 0
 			pick := func(f func(*lconn) bool) *lconn {
 				var c []*lconn
@@ -923,7 +927,7 @@ func lifeConnectProduct(seed int64, tier string, out *sx.Out) {
 										lc := h.opConnect(v)
 										if h.reading(lc) {
 											h.opSubscribe(lc, "t/2", 0)
-											h.opNetClose(lc)
+											h.opDisconnect(lc, 0, false, 0)
 										}
 									})
 								}
